@@ -118,6 +118,9 @@ func sboxHistory(c *vfCase, mon sboxMon, events, epochMax int) *sbox {
 	sb := newSbox(c, c.R.U64(), mon)
 	sb.ignoreExcludeLB = c.R.Chance(1, 4)
 	sb.plainAdvs = c.R.Chance(1, 3)
+	if mon == (sboxMon{c05: true}) && c.R.Chance(1, 3) {
+		sb.failSessionAt = c.R.Range(1, 4)
+	}
 	g := &sboxGen{r: vfNewRand(c.R.U64()), sb: sb}
 	g.seed()
 	c.Logf("initial: %s", vfJSON(sb.dump()))
@@ -128,6 +131,12 @@ func sboxHistory(c *vfCase, mon sboxMon, events, epochMax int) *sbox {
 			if !sb.k.Fatal {
 				c.Violation("no-quiescence", fmt.Sprintf("the speaker did not reach quiescence within %d scheduler steps after %v", sboxMaxSteps, kinds), sb.dump())
 			}
+			return false
+		}
+		if sb.sessionFaulted {
+			// the injected NewSession failure fired: every handler return up to here was judged by the
+			// step monitor (live sessions carry exactly the held advertisements); the history ends here
+			c.Count("histories-ended-by-session-creation-fault")
 			return false
 		}
 		if mon.c05 {
